@@ -111,6 +111,19 @@ fn run_case(case: &J) -> J {
             json!({"v": out(&math.box_array(&o))})
         }
         "sum_ln" => json!({"s": [b(math.array_sum_ln(&x))]}),
+        "gaussian" => {
+            // the real momentum draw: two successive fills of a vector that starts as NaN sentinels
+            use nuts_rs::rand::{SeedableRng, rngs::ChaCha8Rng};
+            let mut rng = ChaCha8Rng::seed_from_u64(ju(case, "seed", 1));
+            let sentinel = vec![f64::NAN; n];
+            let mut o1 = math.new_array();
+            math.read_from_slice(&mut o1, &sentinel);
+            math.array_gaussian(&mut rng, &mut o1, &x);
+            let mut o2 = math.new_array();
+            math.read_from_slice(&mut o2, &sentinel);
+            math.array_gaussian(&mut rng, &mut o2, &x);
+            json!({"v": out(&math.box_array(&o1)), "v2": out(&math.box_array(&o2))})
+        }
         "esh" => {
             let mut o = math.copy_array(&y);
             let r = math.esh_momentum_update(&x, &mut o, a);
